@@ -50,6 +50,11 @@ CHECKS = {
    "(a) Explicit-state BFS over the real dispatcher with three recorded connections and the embedded publisher (SUBSCRIBE/PSUBSCRIBE/UNSUBSCRIBE/PUNSUBSCRIBE incl. duplicates and unknown names, PUBLISH, PUBSUB CHANNELS/NUMSUB/NUMPAT), depth 4/5, per-transition conformance to a reference subscription table: exactly one frame per publish for every connection whose subscriptions match, none for the others, confirmations once per channel with the running count, introspection = table. (b) Stateless preemption-bounded DFS over the schedules of publisher/subscriber threads versus the per-channel and per-message delivery goroutines (their start is a scheduling point of its own): frames per connection must be those of a serial execution, in publish order.",
    "A connection subscribed by name and by a matching pattern must receive one frame (statement); PUNSUBSCRIBE also removes name subscriptions matching the pattern (documented); frame layout beyond 'last element is the message' not compared.",
    "explicit-state BFS + stateless schedule exploration under a cooperative scheduler", "DESIGN.md 6 C18"),
+
+ "C12": ("exploration",
+   "Bounded-exhaustive enumeration of inputs through the REAL connection loop over an in-memory net.Conn whose Read returns exactly the harness-chosen segment; all output judged by an independent strict RESP2/RESP3 parser: (args) every registered command x arity 0..2 over a 14-value hostile alphabet + arity 3 reduced (thorough: arity 3 full, arity 4 reduced) on keys of every kind, RESP2 and after HELLO 3; (catalog) the whole command catalogue over its full argument domains; (bytes) values with CR/LF/NUL/empty/RESP look-alikes through every reader; (seg) EVERY cut of each 1..3-command stream into <= 3 segments, pipelining, bulk strings around 8192 bytes, replies around multiples of 1024 bytes; (junk) every prefix and single-byte corruption of sample commands. Oracle: no panic, exactly one complete well-formed reply per command (one confirmation per channel for the subscribe family), stored bytes returned unaltered, segmented/pipelined output identical to one-command-per-write output, PING on another connection still answers.",
+   "Reply values are judged by C01/C14-C17; streams bounded to 3 commands / 3 segments / 20 KB; many simultaneous connections are not enumerated.",
+   "bounded-exhaustive input and segmentation enumeration through the real read loop", "DESIGN.md 6 C12"),
 }
 NOT_YET = "check not built yet (work in progress; see DESIGN.md section 9 for build order)"
 m={"version":1,
